@@ -55,13 +55,33 @@ type c07Case struct {
 
 var c07Cases = map[string][]c07Case{}
 
+// c07Extras: encodings beyond the zoo that only this world uses, judged like the zoo's disputed entries: where the
+// library accepts the complete encoding, every proper prefix of it must report not-enough-bytes; where it rejects
+// it, there is nothing to compare a truncation with.
+//   - eed/surplus: a server message whose length field announces four bytes more than the fields of this protocol
+//     version take (what a newer server might append), followed by those four bytes.
+var c07Extras = func() []peer.Entry {
+	b := peer.EED(102, 1, 15, "42000", 0, 0, "surplus\n", "ASE160", "", 1)
+	l := (int(b[1]) | int(b[2])<<8) + 4
+	b[1], b[2] = byte(l), byte(l>>8)
+	b = append(b, 0xde, 0xad, 0xbe, 0xef)
+	return []peer.Entry{{Name: "eed/surplus", Kind: "EED", Bytes: b, Visible: true, Spec: "EED with four bytes behind its known fields, counted by its length field"}}
+}()
+
+func init() {
+	for _, e := range c07Extras {
+		zooIndex[e.Name] = e
+		isDisputed[e.Name] = true
+	}
+}
+
 func c07Build(tier string) []c07Case {
 	if cs, ok := c07Cases[tier]; ok {
 		return cs
 	}
 	var cs []c07Case
 	seen := map[string]bool{}
-	for _, e := range append(append([]peer.Entry{}, zooList...), zooDisputed...) {
+	for _, e := range append(append(append([]peer.Entry{}, zooList...), zooDisputed...), c07Extras...) {
 		if tier != "thorough" {
 			// every non-data entry up to 300 bytes; for the data kinds one entry per data-type family
 			if e.Kind == "ROW" || e.Kind == "PARAMS" || e.Kind == "ROWFMT2" || e.Kind == "PARAMFMT" || e.Kind == "PARAMFMT2" {
